@@ -9,12 +9,26 @@ for f in *.tla; do
   $J tla2sany.SANY "$f" > "$S/sany.out" 2>&1 || { echo "WARNING: SANY failed: $f"; tail -5 "$S/sany.out"; }
   grep -q "Semantic errors\|Parse Error\|Fatal errors" "$S/sany.out" && { echo "WARNING: SANY errors: $f"; grep -A5 "rror" "$S/sany.out" | head -10; }
 done
+# self-checks named by a claimed property (vf/claims/*.json "selfchecks") are fatal; the others are reported only
+FATAL=$(/venv/bin/python - <<'PY'
+import json, glob
+s = set()
+for f in glob.glob('/verif/vf/claims/*.json'):
+    s.update(json.load(open(f)).get('selfchecks', []))
+print(' '.join(sorted(s)))
+PY
+)
 for m in $(ls *Self.cfg | sed "s/\.cfg$//"); do
   [ -f "$m.cfg" ] || continue
   timeout 900 $J tlc2.TLC -workers 16 -metadir "$S/md_$m" -noGenerateSpecTE -config "$m.cfg" "$m.tla" > "$S/$m.out" 2>&1
   if grep -q "Model checking completed. No error has been found." "$S/$m.out"; then
     echo "self-check $m: $(grep 'distinct states found' "$S/$m.out" | tail -1)"
-  else echo "self-check $m FAILED"; tail -30 "$S/$m.out"; rc=2; fi
+  else
+    case " $FATAL " in
+      *" $m "*) echo "self-check $m FAILED"; tail -30 "$S/$m.out"; rc=2;;
+      *) echo "WARNING: self-check $m (not required by a claimed property) did not complete"; tail -5 "$S/$m.out";;
+    esac
+  fi
 done
 rm -rf "$S"
 exit $rc
